@@ -398,8 +398,12 @@ def gen_case(rng):
                 seen1 = True
         if any(k == 'frameN' for k in kinds):
             same_cols = True         # a one-column frame beside wide ones is broadcast like a series
-    if op == 'pow':
-        kinds = [k for k in kinds]
+    if op in ('add', 'mul', 'sub', 'div') and rng.random() < 0.12:
+        # long lists mixing several scalars with frames of different column sets: the reduction order is observable under columns='oj'
+        kinds = ['frameN', 'scalar', 'frameN', 'scalar'] + [rng.choice(['scalar', 'frameN', 'series'])] * rng.randint(0, 1)
+        rng.shuffle(kinds)
+        same_cols = False
+        columns = 'oj' if rng.random() < 0.8 else columns
     operands = [gen_operand(rng, k, names_pool) for k in kinds]
     if op == 'pow':
         for o in operands:
